@@ -213,6 +213,10 @@ def extract(F, c):
                         pending[q['var']] = (rg, chain if len(chain) > 1 else chain[0], sep, dict(cx.names), dict(cx.defs), init.get('loc'))
                         continue
                     i0_ = strip(init)
+                    if i0_['k'] == 'VarRef' and any(f[2] == i0_['var'] for f in filters):
+                        # `let text = text;` - the filtered text under a fresh (immutable) binding
+                        for f in [f for f in filters if f[2] == i0_['var']]: filters.append((q['name'], f[1], q['var']))
+                        continue
                     if i0_['k'] == 'Call' and callee_decl(i0_) == 'std::iter::Iterator::collect' and (i0_.get('ty') or {}).get('s') == 'std::string::String':
                         sw = strip(i0_['args'][0])
                         if sw['k'] == 'Call' and (callee_name(sw) or '').endswith('str::<impl str>::split_whitespace'):
@@ -241,6 +245,14 @@ def extract(F, c):
                 continue
             e = s['expr'] if s['k'] == 'Expr' else None
             if e is None: continue
+            e0_ = strip(e)
+            if b is body_block and not hints and e0_['k'] == 'Call' and (callee_name(e0_) or '') == 'std::string::String::retain' and len(e0_['args']) == 2 and root_var(e0_['args'][0]) in var_names:
+                # `text.retain(|c| !c.is_whitespace());` as a statement of main itself, before any hint is written: the text is filtered in place -
+                # the closure keeps the characters the filter form would keep
+                cl = [x for x in walk(e0_['args'][1]) if x['k'] == 'Closure']
+                v_ = root_var(e0_['args'][0])
+                filters.append((var_names[v_], canon(cl[0]['def']) if cl else None, v_))
+                continue
             if builders and fill_loop(e, builders, pending): continue
             if id(s) in consumed_stmts: continue
             idx = b['stmts'].index(s)
@@ -473,6 +485,15 @@ def extract(F, c):
     char_loops = {}
     cx.char_loops = char_loops
     cx.opaque = {}
+    body_block = body
+    while body_block['k'] in ('Use', 'NeverToAny'): body_block = body_block['source']
+    var_names = {}
+    for x_ in walk(body):
+        if x_['k'] != 'Block': continue
+        for s_ in x_['stmts']:
+            if s_['k'] == 'Let':
+                q_ = unwrap_pat(s_['pat'])
+                if q_['k'] == 'Binding': var_names[q_['var']] = q_['name']
     visit_block(body, [])
     return cx, emissions, hints, filters, texts, size_defs
 
